@@ -293,7 +293,7 @@ theorem pull_no_panic_fixed (cfg : Cfg) (hash : Bytes → Digest) (name : Name) 
   rcases pull_cases hp with ⟨_, _, _, hpan⟩ | ⟨_, s, hdl, _, _, _⟩ | ⟨net0, s, ov, st2, hdl, hv, _, hcase⟩
   · intro e
     obtain ⟨k, s, net, hm⟩ := hpan p e
-    exact mrr_no_panic hfix _ _ p k s net hm
+    exact mrr_no_panic hfix _ _ _ p k s net hm
   · exact dlLoop_no_panic hfix hempty p _ hdl
   · rcases hcase with ⟨_, ho, _⟩ | ⟨_, ho, _⟩
     · rw [ho]; exact verifyPhase_no_panic p hv
@@ -471,5 +471,25 @@ theorem size_lie_accepted :
     let reg : Registry := ⟨⟨[⟨.ok dA, 7⟩], ⟨.empty, 0⟩⟩, [(dA, cA)], [0]⟩
     let r := pull cfgW toyHash 0 reg Scripts.honest st0
     r.1 = .ok () ∧ r.2.1.blobs dA = some cA ∧ cA.length ≠ 7 := by decide
+
+/-! ## Malformed redirects on the direct-URL request: what the model says happens -/
+
+/-- one layer, the blob GET on the registry answered by …
+    * 200/307 without `Location`            → error `noLocation`, nothing retried;
+    * 301/302/303/308 (handed back)         → error `directStatus`;
+    * a `Location` that does not parse      → the client fails, the loop retries, the pull succeeds;
+    * a redirect loop (12 × same URL)       → given up after 11 requests, retried, the pull succeeds
+                                              (12 requests to the loop + the honest one);
+    * a redirect to a host that then fails  → every part fails, `maxRetries`, records stay, and the
+                                              honest retry (new direct URL) succeeds.
+    None of them is a panic (for every script at all: `pull_no_panic_fixed`). -/
+theorem malformed_redirect_outcomes :
+    let run := fun (d : List (Reply DirRep)) => pull cfgF toyHash 0 regA ⟨[], [], [(dA, ⟨[], d, []⟩)]⟩ st0
+    (run [.pass .noloc]).1 = .err .noLocation ∧
+    (run [.pass .badstatus]).1 = .err .directStatus ∧
+    (run [.pass .badloc]).1 = .ok () ∧ (run [.pass .badloc]).2.2.net.nd = 2 ∧
+    (run (List.replicate 12 .follow)).1 = .ok () ∧ (run (List.replicate 12 .follow)).2.2.net.nd = 13 ∧
+    (run [.pass .redirectDead]).1 = .err .maxRetries ∧ (run [.pass .redirectDead]).2.2.net.nc = 6 ∧
+    (pull cfgF toyHash 0 regA Scripts.honest (run [.pass .redirectDead]).2.1).1 = .ok () := by decide
 
 end OllamaVerif.C03
